@@ -97,6 +97,7 @@ def main(argv=None) -> int:
     seed = int(os.environ.get("VERIF_SEED", "0") or 0)
     modname = f"mc.checks.{prop.lower()}"
     core._setup_repo_path()
+    core.settle_arviz_stamp()
     t0 = time.time()
 
     if args.replay:
